@@ -59,8 +59,8 @@ class _Handle(object):
         self.binary = 'b' in mode
         self.pos = 0
         self.closed = False
-        self.writable = any(c in mode for c in 'wa+')
-        self.readable = 'r' in mode or '+' in mode
+        self._can_write = any(c in mode for c in 'wa+')
+        self._can_read = 'r' in mode or '+' in mode
         if 'a' in mode:
             self.pos = len(fs.files[path])
 
@@ -106,7 +106,7 @@ class _Handle(object):
     # -- reading ---------------------------------------------------------
     def read(self, n=-1):
         self._check()
-        if not self.readable:
+        if not self._can_read:
             raise io.UnsupportedOperation('not readable')
         d = self._data()
         if n is None or n < 0:
@@ -119,7 +119,7 @@ class _Handle(object):
 
     def readline(self):
         self._check()
-        if not self.readable:
+        if not self._can_read:
             raise io.UnsupportedOperation('not readable')
         d = self._data()
         if self.pos >= len(d):
@@ -133,6 +133,38 @@ class _Handle(object):
         self.fs._rec(self, 'readline', self.pos, len(b))
         self.pos = end
         return self._out(b)
+
+    def readinto(self, buf):
+        if not self.binary:
+            raise AttributeError("'TextIOWrapper' object has no attribute 'readinto'")
+        mv = memoryview(buf).cast('B')
+        b = self.read(len(mv))
+        mv[:len(b)] = b
+        return len(b)
+
+    readinto1 = readinto
+
+    def read1(self, n=-1):
+        return self.read(n)
+
+    def readable(self):
+        return self._can_read
+
+    def writable(self):
+        return self._can_write
+
+    def seekable(self):
+        return True
+
+    def isatty(self):
+        return False
+
+    def fileno(self):
+        raise io.UnsupportedOperation('fileno (simulated file)')
+
+    @property
+    def name(self):
+        return self.path
 
     def readlines(self):
         out = []
@@ -181,7 +213,7 @@ class _Handle(object):
     # -- writing ---------------------------------------------------------
     def write(self, s):
         self._check()
-        if not self.writable:
+        if not self._can_write:
             raise io.UnsupportedOperation('not writable')
         if self.binary:
             b = bytes(s)
